@@ -1,6 +1,6 @@
 (* C15 — property theorems only: each closed by [exact] and followed by Print Assumptions. *)
 From Coq Require Import List Arith NArith ZArith Bool Permutation Relations Wellfounded.
-From AV Require Import Model.C15_PushBuf Model.C15_Machine Model.C15_Trace Model.C15_Plan Proofs.C15_PushBuf Proofs.C15_Machine Proofs.C15_Drive Proofs.C15_Plan.
+From AV Require Import Model.C15_PushBuf Model.C15_Machine Model.C15_Trace Model.C15_Plan Proofs.C15_PushBuf Proofs.C15_Machine Proofs.C15_Drive Proofs.C15_Async Proofs.C15_Plan.
 Import ListNotations.
 Local Open Scope N_scope.
 
@@ -178,6 +178,20 @@ Theorem exact_supply_completes :
   drive Rw B U R fr_step plan upd file fuel (init Rw B U q b) = (sync_rows Rw B U R fr_step plan upd file q b, true).
 Proof. exact C15_Drive.exact_supply_completes. Qed.
 Print Assumptions exact_supply_completes.
+
+(* async stream: ParquetRecordBatchStream modelled as the RequestState machine (None / Outstanding /
+   Done) around the same push decoder, polled by an executor; [delays] says how many times the
+   future of the i-th fetch returns Pending.  For EVERY pending pattern the stream ends, within an
+   explicit number of polls, having yielded exactly the sync reader's rows. *)
+Theorem async_stream_reads_sync_rows :
+  forall (Rw B U R : Type) (fr_step : nat -> B -> fstep B R) (plan : R -> phase Rw U) (upd : B -> U -> B) (file : list N),
+  (forall r, phase_ok Rw U file (in_file_range file) (plan r)) ->
+  forall (q : list nat) (b : B) (delays : list nat) (fuel : nat),
+  (3 * potential Rw B U R fr_step plan upd file (init Rw B U q b) + list_sum delays + 2 < fuel)%nat ->
+  stream_collect Rw B U R fr_step plan upd file fuel delays {| s_req := QNone; s_dec := init Rw B U q b |}
+  = (sync_rows Rw B U R fr_step plan upd file q b, true).
+Proof. exact C15_Async.async_stream_reads_sync_rows. Qed.
+Print Assumptions async_stream_reads_sync_rows.
 
 (* rebuild_at_boundary: at a row-group boundary into_builder().build() gives back the same decoder
    state (remaining row groups, remaining budget/selection, buffered bytes) *)
